@@ -24,7 +24,7 @@ use crate::util::*;
 pub const PROP: Prop = Prop {
     id: "C12",
     level: "exploration",
-    rule: "(round 8: comment bodies with every control character, NUL included; after any generated sequence and after 1-12 copies of a datum in its alternative spellings the same parser still reads a datum at the measured nesting limit) (rounds 6-7: streams of 60 000 (400 000) comment lines, blanks and complete datums in child processes; 24 kinds of erroneous item repeated 1-300 times followed by a datum nested 60-126 levels; trivia inside the innermost datum of a nest at the measured nesting limit, value and datum API) (plus sequences that begin with a token of 256 B .. 128 KiB, with and without escapes, followed by strings and other values) (seq) lists of 0-12 values printed in the default and Emacs Lisp dialects and joined by generated trivia over {space, tab, CR, LF, FF, ';...\\n'} (at least one trivia byte between values, any before and after, optionally a final comment without newline) must parse to exactly those values, then end of input, with expect_end Ok; (trivia) one value laid out canonically and with generated trivia at every token boundary must give the same value; (iter) arbitrary inputs (token sequences, mutations, bytes, hundreds of repeated small datums) iterated in the four ways, continuing after errors, must end within len+2 items, yield at most len successful items, and agree; (hist) generated call histories over next_value, next_datum, expect_value, expect_datum, expect_end, value_iter().next(), datum_iter().next(), Iterator::next on one parser are compared with a queue model. non-trivial = at least 2 values with trivia containing a comment or 2 distinct whitespace kinds; for iter/hist at least one error item or at least 3 operations; distinct by digest of the case",
+    rule: "(round 9: layouts close dotted lists with brackets too) (round 8: comment bodies with every control character, NUL included; after any generated sequence and after 1-12 copies of a datum in its alternative spellings the same parser still reads a datum at the measured nesting limit) (rounds 6-7: streams of 60 000 (400 000) comment lines, blanks and complete datums in child processes; 24 kinds of erroneous item repeated 1-300 times followed by a datum nested 60-126 levels; trivia inside the innermost datum of a nest at the measured nesting limit, value and datum API) (plus sequences that begin with a token of 256 B .. 128 KiB, with and without escapes, followed by strings and other values) (seq) lists of 0-12 values printed in the default and Emacs Lisp dialects and joined by generated trivia over {space, tab, CR, LF, FF, ';...\\n'} (at least one trivia byte between values, any before and after, optionally a final comment without newline) must parse to exactly those values, then end of input, with expect_end Ok; (trivia) one value laid out canonically and with generated trivia at every token boundary must give the same value; (iter) arbitrary inputs (token sequences, mutations, bytes, hundreds of repeated small datums) iterated in the four ways, continuing after errors, must end within len+2 items, yield at most len successful items, and agree; (hist) generated call histories over next_value, next_datum, expect_value, expect_datum, expect_end, value_iter().next(), datum_iter().next(), Iterator::next on one parser are compared with a queue model. non-trivial = at least 2 values with trivia containing a comment or 2 distinct whitespace kinds; for iter/hist at least one error item or at least 3 operations; distinct by digest of the case",
     assumptions: &[
         "after an error only termination and absence of panics are required of later calls on the same parser",
         "float acceptance as in C01",
